@@ -12,6 +12,11 @@ offline numpy checker of every recorded step:
              (U0,V0,A0); E_1 = E_0 in addition when A0 is the consistent acceleration -M^-1 f_int(U0)
   rigid      U0 = c, V0 = v (compatible with the BCs), A0 = 0  =>  U_n = c + v t_n, V_n = v, A_n = 0
   mass       sum of the consistent mass over one component = density x area (any order, any quadrature degree)
+
+All clauses are also exercised under the other options of create_dynamics_functions: function spaces built with
+mode2D='axisymmetric' (r > 0 meshes; mass sum = density x int 2 pi r dA computed independently as 2 pi sum A_e r_centroid;
+rigid translation = axial only), pressureProjectionDegree 0 / 1 on order-2/3 elements (ordinary and nearly incompressible nu),
+and both combined.  The energy clause needs a quadratic strain energy, so it is applied without the (nonlinear) projection only.
 """
 import math
 
@@ -44,6 +49,11 @@ ASSUMPTIONS = [
     "reading of the conservation clause: 'the same after every step' = constant from the first computed state on; equality with the "
     "initial energy is demanded only for a consistent initial acceleration (DESIGN C15)",
     "a step whose solve returns flag False is outside the hypothesis 'minimise': counted (solver_failed_steps), the case stops there",
+    "reference time step dt* = h/p sqrt(rho / (kappa + 4/3 mu)) (P-wave modulus, so nearly incompressible materials get the right omega_max); "
+    "finite-strain materials and every pressure-projection configuration use dt <= 2 dt* (the explicit predictor otherwise inverts elements "
+    "and the energy is undefined: observed as a NaN gradient, counted under solver_failed_steps)",
+    "axisymmetric mass reference rho * 2 pi * sum_e A_e r_centroid(e) is exact for straight-sided triangles; stepping configurations use "
+    "quadrature degree >= 2p+1 there (the measure adds one polynomial degree)",
 ]
 REQUIRED = {
     "all": {"steps_checked": 200, "momentum_checks": 200, "formula_checks": 200, "solver_converged_steps": 200,
@@ -54,7 +64,7 @@ REQUIRED = {
             "class:rigid_translation": 2, "class:mass": 2,
             "class:axisym_momentum": 1, "class:axisym_trapezoid_energy": 2, "class:axisym_rigid_translation": 1, "class:pp_momentum": 3,
             "class:axisym_pp_momentum": 2,
-            "steps:axisym": 60, "steps:plane_pp0": 30, "steps:plane_pp1": 15, "steps:axisym_pp0": 15, "steps:axisym_pp1": 15,
+            "steps:axisym": 60, "steps:plane_pp0": 20, "steps:plane_pp1": 10, "steps:axisym_pp0": 10, "steps:axisym_pp1": 10,
             "axisym_energy_steps": 30, "option_rigid_steps": 30, "axisym_mass_sum_checks": 12},
     "quick": {},
     "thorough": {"steps_checked": 45000, "energy_steps_arbitrary": 12000, "energy_steps_consistent": 12000, "rigid_steps": 8000,
@@ -113,6 +123,10 @@ def _case(seed, cls, i, **kw):
          "mesh": ms, "meshkind": meshkind, "quad": q, "material": mat, "beta": beta, "gamma": gamma, "params": params,
          "mode": mode, "pp": pp}
     c.update(kw)
+    if c.get("init") == "rigid" and c.get("bc") not in ("free", "roller"):
+        c["bc"] = "roller"       # a rigid translation must be compatible with the essential BCs
+    if c.get("init") == "rigid":
+        c["ubc_nonzero"] = False
     c.setdefault("cost", 20.0 + 0.6 * c.get("nsteps", 0))
     return c
 
@@ -457,7 +471,9 @@ def run_case(case):
         Ubc_full[mask] = Ub[mask]
         res.count("nonzero_constant_bc_values")
     Ubc = jnp.array(Ubc_full[mask])
-    dt_star = h / order * math.sqrt(rho / E)
+    nu_ = mat_spec["nu"]
+    Mwave = E * (1.0 - nu_) / ((1.0 + nu_) * (1.0 - 2.0 * nu_))     # P-wave modulus kappa + 4/3 mu: sets omega_max (large when nearly incompressible)
+    dt_star = h / order * math.sqrt(rho / Mwave)
     dts = _dt_sequence(rng, case["dt_kind"], int(case["nsteps"]), dt_star, 1.5 if linear else 0.3)
     if init == "rigid":
         cvec = rng.standard_normal(2) * L * 10.0 ** rng.uniform(-2, 1)
